@@ -22,8 +22,13 @@ VARIABLES hist, nreq     \* hist: requests so far (observation only; hidden from
 mvars == <<cfg, pc, cur, eff, out, hist, nreq>>
 View == <<cfg, pc, cur, eff, out, nreq>>
 
-Creds == {[kind |-> "none", role |-> NoRole, st |-> ""], [kind |-> "wrong", role |-> NoRole, st |-> ""],
-          [kind |-> "admin", role |-> Admin, st |-> ""]}
+\* "wrong" credentials differ in what they share with a real token (nothing, the empty string, a
+\* proper prefix of the auth token, the auth token with something appended, its upper-case form, a
+\* prefix / an extension of a valid admin pairing token): for the property they are all the same
+\* thing -- a string that is no token -- and the replay sends every one of them
+WrongShapes == {"", "empty", "prefix", "ext", "case", "pprefix", "pext"}
+Creds == {[kind |-> "none", role |-> NoRole, st |-> ""], [kind |-> "admin", role |-> Admin, st |-> ""]}
+         \cup {[kind |-> "wrong", role |-> NoRole, st |-> w] : w \in WrongShapes}
          \cup {[kind |-> "pair", role |-> r, st |-> "valid"] : r \in Roles}
          \cup {[kind |-> "pair", role |-> r, st |-> st] : r \in StaleRoles, st \in {"expired", "revoked"}}
 
@@ -82,7 +87,7 @@ AlwaysAnswered == pc # "idle" => ENABLED (Parse \/ Authenticate \/ Authorise \/ 
 
 \* ------------------------------------------------------------------ export (spec -> impl)
 \* every complete behaviour of the bounded model becomes request scripts for tpv ctrlauth-run
-CredLabel(c) == CASE c.kind = "none" -> "none" [] c.kind = "wrong" -> "wrong" [] c.kind = "admin" -> "admin"
+CredLabel(c) == CASE c.kind = "none" -> "none" [] c.kind = "wrong" -> (IF c.st = "" THEN "wrong" ELSE "w-" \o c.st) [] c.kind = "admin" -> "admin"
                   [] c.kind = "pair" /\ c.st = "valid" -> (CASE c.role = Viewer -> "pv" [] c.role = Operator -> "po" [] c.role = Engineer -> "pe" [] OTHER -> "pa")
                   [] c.kind = "pair" /\ c.st = "expired" -> "xe"
                   [] OTHER -> "re"
